@@ -53,6 +53,8 @@ TEMPLATES = {
     "ns_tuple_rebind": "{% set ns = namespace() %}{% set ns, ns.x = d, 1 %}{{ ns.k }}{% set n2 = namespace() %}{% set n2.y, n2 = 2, d %}{{ n2.k }}",
     # a filter that fails on its input must not have touched the input before failing
     "indent_list": "{{ items|indent }}",
+    # arguments taken from data / globals are inputs too
+    "sum_start_data": "{{ nested|sum(start=items)|length }}{{ nested|sum(start=gl) }}{{ items|join(d.k) }}{{ d.j|sum(start=0) }}",
     "filters_failing": "{{ d|join(',') }}{{ items|sum }}{{ nested|sort|first }}{{ items|replace(1, 2) }}",
     # `|list` hands out a copy: appending to it changes neither the data, nor a global, nor a cached module's variable
     "list_copy": "{% set a = items|list %}{% set _ = a.append(9) %}{% set b = gl|list %}{% set _ = b.append(9) %}{% import 'lib' as l %}{% set c = l.ll|list %}{% set _ = c.append(9) %}{{ a }}{{ b }}{{ c }}{{ l.ll }}",
@@ -68,7 +70,7 @@ TEMPLATES = {
 }
 POOL = ["imp", "fromctx", "ns", "loopstate", "cycler", "filters", "child", "macro", "setattr", "tojson_indent", "tojson",
         "policies", "impg1", "impg2", "set_attr_of_data", "setblock_attr_of_data", "set_ns_attr",
-        "ns_from_dict", "ae_block", "ae_block@raise", "ns_rebound", "ns_untaken", "list_copy", "dyn@base", "dyn@base2", "genpass", "ns_tuple_rebind", "indent_list", "filters_failing"]
+        "ns_from_dict", "ae_block", "ae_block@raise", "ns_rebound", "ns_untaken", "list_copy", "dyn@base", "dyn@base2", "genpass", "ns_tuple_rebind", "indent_list", "filters_failing", "sum_start_data"]
 VARIANTS = {"raise": {"z": 0}, "base": {"lay": "base"}, "base2": {"lay": "base2"}}
 # templates loaded with template-level globals (same names, different values)
 TEMPLATE_GLOBALS = {"impg1": {"tg": "one"}, "impg2": {"tg": "two"}}
